@@ -594,6 +594,16 @@ func ffgRawOp(op, pat string, args []string, a *argTrack) string {
 			ffg.Butterfly(&x, &y)
 		}
 		return ffgShowLimbs(&x) + " " + ffgShowLimbs(&y)
+	case "butterflyab":
+		// Butterfly(a, a): both arguments the same element — every back-end must leave the same value
+		need(args, 1)
+		x := lim(0)
+		if pat == "generic" {
+			ffgButterflyGeneric(&x, &x)
+		} else {
+			ffg.Butterfly(&x, &x)
+		}
+		return ffgShowLimbs(&x)
 	case "mulby3", "mulby5", "mulby13":
 		need(args, 1)
 		x := lim(0)
